@@ -145,7 +145,7 @@ fn parse_representation_yaml(v: u8, recursive: bool) {
 macro_rules! pr_harness {
     ($name:ident, $v:expr, $rec:expr) => {
         #[kani::proof]
-        #[kani::unwind(6)]
+        #[kani::unwind(12)]
         #[kani::stub(<f64 as std::str::FromStr>::from_str, f64_from_str_stub)]
         pub fn $name() {
             parse_representation_yaml($v, $rec);
@@ -164,7 +164,7 @@ pr_harness!(c19_parse_representation_repr_recursive, 5, true);
 
 /// parse_representation_recursive on a sequence keeps the sequence and resolves its items.
 #[kani::proof]
-#[kani::unwind(6)]
+#[kani::unwind(12)]
 #[kani::stub(<f64 as std::str::FromStr>::from_str, f64_from_str_stub)]
 pub fn c19_parse_representation_sequence() {
     let mut buf = [0u8; 2];
